@@ -84,7 +84,7 @@ Theorem C20_truecolor :
   forall (pal256 gray4 : rgba -> N), (forall c, (pal256 c < 256)%N) ->
   forall (glyphs kitty : bool) (f : face), cmd_ok (Face f) = true ->
   exists bs t, encode pal256 gray4 (mkCaps TrueColor glyphs kitty) (Face f) = Ok bs /\
-    vt_ops bs = [OSgr t] /\
+    vt_ops bs = [OSgr t] /\ t_bad t = false /\
     forall prior : rendition, rt_apply t prior = face_rendition f.
 Proof. exact c05_face_exact_thm. Qed.
 
